@@ -183,6 +183,8 @@ class Impl:
             m = re.search(pat, msg)
             return m.group(1) if m else ""
 
+        if "Could not convert option" in msg and "to int" in msg:   # repaired variant (fixes/C15-md-int-names-option.diff)
+            return ("err", "intBad", "", msg)
         if "Could not convert option" in msg and "expected a single value" in msg:
             return ("err", "boolMulti", q(r"option '([^']*)'"), msg)
         if "Could not convert option" in msg:
